@@ -29,6 +29,9 @@ def universes():
     u["B_del_a1"] = dele("B", [ids["a1"]])
     u["B_del_b1a2"] = dele("B", [ids["b1"], ids["a2"]])
     u["A_del_a2_t20"] = dele("A", [ids["a2"]], t=20)  # same timestamp as a2
+    from ..universe import delegation_tag
+    u["b_dlg"] = make_event("B", 1, 12, [delegation_tag("A", "B", "kind=1")], "delegated by A")
+    u["A_del_b_dlg"] = dele("A", [u["b_dlg"]["id"]])  # the delegator is not the author
     # malformed references: if accepted they must still delete nothing foreign
     u["A_del_mal_zz"] = dele("A", ["zz", ids["a1"]])
     u["A_del_mal_short"] = dele("A", [ids["a1"][:10]])
